@@ -688,7 +688,13 @@ class FileSystemProvider(Provider):                     # pylint: disable=too-ma
 
     def hash_data(self, file_like) -> bytes:
         with self._api():
-            return self._fast_hash_data(file_like)[0]
+            # must agree with hash_oid()/info_*(), i.e. with _fast_hash_path(): the quick head+tail hash is only final
+            # for data of up to 1 KiB, anything longer is identified by the hash of its whole content
+            fhash, final = self._fast_hash_data(file_like)
+            if final:
+                return fhash
+            file_like.seek(0, os.SEEK_SET)
+            return get_hash(file_like)
 
     def info_path(self, path: str, use_cache=True) -> typing.Optional[OInfo]:
         return self.__info_path(path, None, canonicalize=True)
